@@ -76,7 +76,10 @@ pub fn run(ctx: &'static Ctx) {
         for p in 0..d { for a in &syms { let mut v = vec![HARD; d]; v[p] = *a; cases.push((s, v.clone()));
             if dev >= 2 && s == 2 && d <= 12 { for q in p + 1..d { for b in &syms { let mut w = v.clone(); w[q] = *b; cases.push((s, w)); } } } } }
     } }
-    ctx.sweep("lines", &format!("paths of 0' of every depth 1..={maxd} with <= {dev} deviating components (13 alternatives each), 5 seeds (pairs on the 64-byte seed)"), cases.len() as u64, |i| {
+    // very deep paths (counter widths: u8 depth bytes, small fixed buffers): all hardened, all normal, alternating
+    for d in [31usize, 32, 33, 63, 64, 65, 127, 128, 129, 254, 255, 256, 257, 300, 511, 512, 1000] { if ctx.quick() && d > 300 { continue; }
+        cases.push((2, vec![HARD; d])); cases.push((2, vec![1; d])); cases.push((0, (0..d).map(|k| if k % 2 == 0 { HARD | 7 } else { 7 }).collect())); }
+    ctx.sweep("lines", &format!("paths of 0' of every depth 1..={maxd} with <= {dev} deviating components (13 alternatives each), 5 seeds (pairs on the 64-byte seed); plus depths 31..33, 63..65, 127..129, 254..257, 300 (thorough: 511, 512, 1000) all-hardened / all-normal / alternating"), cases.len() as u64, |i| {
         let (s, path) = &cases[i as usize]; check_path(ctx, &sp, "lines", i, *s, path);
     });
     ctx.guard_check("both derivation kinds compared", ctx.classes_matching(|c| c.contains("last=hardened") && c.ends_with(":key")) > 0 && ctx.classes_matching(|c| c.contains("last=normal") && c.ends_with(":key")) > 0, "hardened and normal children were both derived and compared");
